@@ -186,6 +186,21 @@ func isoShapes(scratch string, rng *rand.Rand, n int) []*isoShape {
 			{Type: "file", Src: "src/bin", Dst: "/usr/bin/tool"}}
 	}, "")
 	mk("arch-translation", func(c *Cfg, n *[]Node) { c.Arch = "arm6"; c.Release = "" }, "")
+	// values a packager may want to tidy up (trailing slashes, doubled blanks, padding): whatever it does, it does to its own copy
+	mk("denormalised-values", func(c *Cfg, n *[]Node) {
+		c.RpmPrefixes = []string{"/opt/app/", "/usr//lib/", "/srv/"}
+		c.Depends = []string{"libfoo  >=  1.2.0", "libbar >= 2", "plain"}
+		c.Recommends, c.Suggests, c.Conflicts = []string{"rec  (>= 1)"}, []string{"sug: with  blanks"}, []string{"con <  3"}
+		c.Description = "Synopsis with trailing blanks   \n  indented second line  \n\n"
+		c.Homepage, c.Section, c.License = "https://example.org/isopkg/", "utils/", "MIT  "
+		c.DebFields = []KV2{{"Bugs", "  https://bugs.example/  "}}
+		c.IpkTags = []string{" padded-tag ", "tag2"}
+		c.IpkFields = []KV2{{"Source", " s  "}}
+		c.DebBreaks, c.DebPredepends, c.IpkPredepends = []string{"brk  (<< 2)"}, []string{"pre  (>= 1)"}, []string{"ipre  "}
+		c.RpmGroup, c.RpmSummary = "Group/With/Slash/", "Summary with trailing blanks  "
+		c.Entries = append(c.Entries, Entry{Type: "dir", Dst: "/var/lib/isopkg/"}, Entry{Type: "file", Src: "src/sub/", Dst: "/usr/share/isopkg//sub/"},
+			Entry{Type: "symlink", Src: "/usr/bin/../bin/tool", Dst: "/usr/bin/./t3"})
+	}, "")
 	for i := 0; len(out) < n; i++ {
 		pc := genPkgCase(rng, 1000+i, "payload", scratch, "quick")
 		pc.Cfg.Pmt = 1600000000
@@ -431,7 +446,7 @@ func famIso(tr *Trace, scratch string, seed int64, tier string, workers int, beh
 func famConc(tr *Trace, scratch string, seed int64, tier string) M {
 	os.Unsetenv("SOURCE_DATE_EPOCH")
 	rng := rand.New(rand.NewSource(seed + 7))
-	nshapes, iters := 13, 12
+	nshapes, iters := 14, 12
 	if tier == "thorough" {
 		nshapes, iters = 20, 40
 	}
